@@ -649,3 +649,70 @@ PROPS["C15"] = {
     "assumptions": ["bank keeper Mint/Burn/Send move exactly the stated coins (parameter, observed)",
                     "messages are executed atomically (branched store discarded on error), as baseapp does"],
 }
+
+
+# ------------------------------------------------------------------------------------------------ C16 sudo
+def parse_sudo_obs(ob):
+    a = ob.split()
+    kv = dict(x.split("=", 1) for x in a[1:])
+    return a[0], dict(root=kv["root"], contracts=plist(kv["contracts"]), w=[int(x) for x in kv["w"].split(",")])
+
+
+def oracle_c16(run, ops, impl):
+    out = []
+    st = None
+    tix = {"oracleParams": 0, "inflationParams": 1, "inflationToggle": 2, "denomMetadata": 3}
+    valid = set()
+    for i, (op, ob) in enumerate(zip(ops, impl)):
+        a = op.split()
+        if ob.startswith("panic"):
+            out.append(V("C16:panic", {"line": i + 1, "op": op}))
+            continue
+        res, new = parse_sudo_obs(ob)
+        if a[1] == "reset":
+            st = new
+            valid = set(plist(a[2]))
+            continue
+        sender = a[3] if a[1] == "gated" else a[2]
+        is_root = sender in valid and sender.lower() == st["root"].lower()
+        listed = sender in valid and sender.lower() in [c.lower() for c in st["contracts"]]
+        if res != "ok" and new != st:
+            out.append(V("C16:rejected-message-changed-state", {"line": i + 1, "op": op, "result": res}))
+        if a[1] == "gated":
+            if res == "ok" and not (is_root or listed):
+                out.append(V("C16:gated-accepted-for-non-sudoer", {"line": i + 1, "op": op, "root": st["root"], "contracts": st["contracts"]}))
+            if res != "ok" and (is_root or listed):
+                spelled = "uppercase-root" if (is_root and st["root"] != st["root"].lower()) else \
+                    ("uppercase-sender" if sender != sender.lower() else "plain")
+                out.append(V("C16:gated-refused-for-sudoer:%s" % spelled, {"line": i + 1, "op": op, "root": st["root"], "contracts": st["contracts"], "result": res}))
+            if res == "ok":
+                w = list(st["w"])
+                w[tix[a[2]]] += 1
+                if new["w"] != w:
+                    out.append(V("C16:accepted-gated-op-wrote-unexpected-stores", {"line": i + 1, "op": op, "before": st["w"], "after": new["w"]}))
+        else:
+            changed = (new["root"], sorted(new["contracts"])) != (st["root"], sorted(st["contracts"]))
+            if changed and not is_root:
+                out.append(V("C16:sudoers-changed-by-non-root", {"line": i + 1, "op": op, "root": st["root"]}))
+            if res == "ok" and not is_root:
+                out.append(V("C16:root-operation-accepted-for-non-root", {"line": i + 1, "op": op, "root": st["root"]}))
+            if res != "ok" and is_root and a[1] == "changeRoot" and a[3] in valid:
+                out.append(V("C16:changeRoot-refused-for-root", {"line": i + 1, "op": op, "root": st["root"], "result": res}))
+        st = new
+    return out
+
+
+PROPS["C16"] = {
+    "modules": ["NibiruProofs.C16"],
+    "runs": [{"model": "sudo", "n_quick": 150, "n_thorough": 2500, "nontrivial": r"^ok root="}],
+    "oracle": oracle_c16,
+    "rule": "each case is one generated history on the real sudo msg server and the four real sudo-gated entry points (oracle "
+            "EditOracleParams, inflation EditInflationParams / ToggleInflation, tokenfactory SudoSetDenomMetadata), each message run as "
+            "the chain does (ValidateBasic, handler on a branched context discarded on error): EditSudoers add/remove/unknown action "
+            "with duplicates, ChangeRoot, gated messages — by root, former roots, listed and formerly listed contracts, strangers, "
+            "upper-case spellings and malformed addresses; observations: result class, stored root and contract set, number of observed "
+            "writes per gated store; non-trivial = at least one message accepted",
+    "assumptions": ["authz wrapping is covered by the message-tree model (C02/C17), not by this check",
+                    "T1: the set of functions calling CheckPermissions and the check-before-write order are regenerated from the source "
+                    "on every run (fact_C16_*)"],
+}
